@@ -39,6 +39,27 @@ pub fn rev_group(items: &[u64], modulus: u64) -> Vec<(u64, usize, Vec<u64>)> {
         .collect()
 }
 
+/// `revisitable_group_by` again; the public `len` field of every group is read three times: before the
+/// group is iterated, after one item was pulled, and after the group was exhausted.
+pub fn rev_group_lens(items: &[u64], modulus: u64) -> Vec<(u64, [usize; 3], Vec<u64>)> {
+    use crate::util::rust_util::rev_group::RevisitableGroupByForIterator;
+    items
+        .iter()
+        .copied()
+        .revisitable_group_by(|x| if modulus == 0 { *x } else { *x % modulus })
+        .map(|mut g| {
+            let l0 = g.len;
+            let mut v: Vec<u64> = g.next().into_iter().collect();
+            let l1 = g.len;
+            for x in g.by_ref() {
+                v.push(x);
+            }
+            let l2 = g.len;
+            (g.key, [l0, l1, l2], v)
+        })
+        .collect()
+}
+
 /// The mimalloc size-class function on an already aligned size.
 pub fn mi_bin_from_size(size: usize) -> usize {
     crate::policy::marksweepspace::native_ms::verif_mi_bin_from_size(size)
